@@ -178,6 +178,25 @@ func (s *sim) checkTermination(idle bool) {
 			}
 		}
 	}
+	// A node that lost the WAL records of this height (known finding: #ENDHEIGHT marker lost
+	// by a crash, see KNOWN_FINDINGS.txt) restarts with amnesia: it is not a correct process
+	// in the sense of C03; for C05 ("after any restart ... the node goes on committing") a
+	// stall it causes is reported under its own signature.
+	sigSuffix := ""
+	for _, n := range s.nodes {
+		if n.walPoisoned {
+			if prop == "C03" {
+				for _, v := range vals.Validators {
+					if string(n.addr) == string(v.Address) && !s.refused[n.idx][gi.height] {
+						faulty += v.VotingPower
+						nf++
+					}
+				}
+			} else {
+				sigSuffix = "-after-endheight-marker-loss"
+			}
+		}
+	}
 	if 3*faulty >= total {
 		s.env.Count("probe.liveness_precondition_unmet")
 		return
@@ -189,7 +208,7 @@ func (s *sim) checkTermination(idle bool) {
 	for _, n := range s.nodes {
 		rs := n.cs.GetRoundState()
 		if rs.Height == gi.height && rs.Round > gi.deadline {
-			s.env.Fail(prop, "no-termination", "node %d entered round %d of height %d after the synchrony point (rounds at GST: max %d min %d, %d Byzantine validators, bound %d) and height %d is still undecided at some correct node", n.idx, rs.Round, gi.height, gi.rmax, gi.rmin, len(s.byz), gi.deadline, gi.height)
+			s.env.Fail(prop, "no-termination"+sigSuffix, "node %d entered round %d of height %d after the synchrony point (rounds at GST: max %d min %d, %d Byzantine validators, bound %d) and height %d is still undecided at some correct node", n.idx, rs.Round, gi.height, gi.rmax, gi.rmin, len(s.byz), gi.deadline, gi.height)
 		}
 	}
 	if idle {
@@ -211,9 +230,16 @@ func (s *sim) checkTermination(idle bool) {
 			desc := ""
 			for _, n := range s.nodes {
 				rs := n.cs.GetRoundState()
-				desc += fmt.Sprintf(" n%d:%d/%d/%d(store %d)", n.idx, rs.Height, rs.Round, rs.Step, n.bstore.Height())
+				desc += fmt.Sprintf(" n%d:%d/%d/%d(store %d", n.idx, rs.Height, rs.Round, rs.Step, n.bstore.Height())
+				if pv := rs.Votes.Prevotes(rs.Round); pv != nil {
+					desc += " pv=" + pv.BitArray().String()
+				}
+				if pc := rs.Votes.Precommits(rs.Round); pc != nil {
+					desc += " pc=" + pc.BitArray().String()
+				}
+				desc += fmt.Sprintf(" refused=%v)", s.refused[n.idx][rs.Height])
 			}
-			s.env.Fail(prop, "stall", "after the synchrony point nothing is deliverable and no timeout is pending, but height %d is undecided at some correct node:%s", gi.height, desc)
+			s.env.Fail(prop, "stall"+sigSuffix, "after the synchrony point nothing is deliverable and no timeout is pending, but height %d is undecided at some correct node:%s", gi.height, desc)
 		}
 	} else {
 		s.idleSteps = 0
